@@ -164,6 +164,15 @@ CHECKS['C12'] = {
     'note': 'Trusted: sklearn DBSCAN, shapely, cv2; sort_regions has an ASSUMED contract (permutation of range(n)) backed by the bounded tier only; SmartRegionSorter recursion has no variant.',
 }
 
+CHECKS['C11'] = {
+    'level': 'other',
+    'technique': 'partial: slice-mode deductive proof of the bounding-box pre-filter (z3) + bounded shapely clauses on a finite grid and LayoutExtractor option combinations with a stub detector',
+    'text': ('PROVED: the pre-filter of assign_lines_to_regions marks every (line, region) pair whose boxes overlap with positive area and rejects pairs separated along both axes. '
+             'BOUNDED: placed baselines inside the region and pieces of the detected baseline, outline clipped, inside lines unchanged, untouched never placed, longest piece kept, '
+             'ids distinct - on 6 rectilinear regions (singly/pairs/all) x 44 baselines; LayoutExtractor.process_page x detect-regions x multi-orientation x merge-lines gives distinct ids.'),
+    'note': 'Trusted: shapely semantics (A6); float32 rounding of boxes (A2); continuous geometry beyond the grid is not decided.',
+}
+
 NOT_APPLICABLE = {
     'C20': ('equality up to round-off of float tensors produced by torch C++ kernels through module-resident caches across calls: no contract '
             'within reach can state it over reals, no finite domain makes a bounded check exhaustive; a random differential test would be a different technique (DESIGN.md §6)'),
